@@ -167,4 +167,103 @@ SCN("PIP_Problem::solve/no parameters", "PIP_Problem::solve", 1) {
   usable(r, x, xf, "x");
 }
 
+
+// ---- copies of SOLVED problems: the solution tree (PIP) / the cached tableau and last generator (MIP) are cloned --------
+// tree shapes: 0 solution node only; 1 decision node with a true child only; 2 decision node with both children;
+//              3 nested decision nodes with artificial parameters
+// (the library represents "if c then S else no solution" as the solution node S guarded by the constraint c, not as a decision node)
+static PIP_Problem pip_shape(int shape) {
+  PIP_Problem p(shape == 3 ? 3 : 2);
+  if (shape == 0) { p.add_constraint(K(2) * A + B >= K(3)); p.add_constraint(B >= A); }               // no parameters
+  else if (shape == 1) { p.add_to_parameter_space_dimensions(Variables_Set(B)); p.add_constraint(K(2) * A <= B - K(2)); p.add_constraint(A >= K(1)); }   // x = 1 if p >= 4, else no solution
+  else if (shape == 2) { p.add_to_parameter_space_dimensions(Variables_Set(B)); p.add_constraint(A >= B - K(3)); }                      // x = max(0, p - 3)
+  else { p.add_to_parameter_space_dimensions(Variables_Set(B, C)); p.add_constraint(K(2) * A >= B); p.add_constraint(A >= C - K(3)); p.add_constraint(K(3) * A <= B + K(2) * C + K(7)); }
+  (void) p.solve();
+  return p;
+}
+struct Tree_Shape { int decisions, both, true_only, max_depth, artificials; };
+static void tree_shape(const PIP_Tree_Node* t, int depth, Tree_Shape& sh) {
+  if (t == 0) return;
+  for (PIP_Tree_Node::Artificial_Parameter_Sequence::const_iterator i = t->art_parameter_begin(); i != t->art_parameter_end(); ++i) ++sh.artificials;
+  const PIP_Decision_Node* d = t->as_decision();
+  if (d == 0) return;
+  ++sh.decisions; if (depth + 1 > sh.max_depth) sh.max_depth = depth + 1;
+  if (d->child_node(true) != 0 && d->child_node(false) != 0) ++sh.both; else if (d->child_node(true) != 0) ++sh.true_only;
+  tree_shape(d->child_node(true), depth + 1, sh); tree_shape(d->child_node(false), depth + 1, sh);
+}
+static void expect_shape(Run& r, const PIP_Problem& p, int shape) {
+  Tree_Shape sh = { 0, 0, 0, 0, 0 };
+  tree_shape(p.solution(), 0, sh);
+  bool ok = shape == 0 ? sh.decisions == 0 : shape == 1 ? (sh.decisions == 0 && p.solution() != 0 && !p.solution()->constraints().empty()) : shape == 2 ? sh.both >= 1 : (sh.max_depth >= 2 && sh.artificials >= 1);
+  if (!ok) r.problem("harness", "solution tree does not have the intended shape " + std::to_string(shape) + ": decisions=" + std::to_string(sh.decisions) + " both=" + std::to_string(sh.both)
+                     + " true_only=" + std::to_string(sh.true_only) + " depth=" + std::to_string(sh.max_depth) + " artificial=" + std::to_string(sh.artificials));
+}
+#define SCN_PIPSH(name, site) \
+  template <int SH> static void C14_CAT(scn_t_, __LINE__)(Run& r); \
+  static Reg C14_CAT(reg_a_, __LINE__)("PIP_Problem::" name "/solved:solution node only", "PIP_Problem::" site, 0, &C14_CAT(scn_t_, __LINE__)<0>); \
+  static Reg C14_CAT(reg_b_, __LINE__)("PIP_Problem::" name "/solved:guarded solution node (else: no solution)", "PIP_Problem::" site, 0, &C14_CAT(scn_t_, __LINE__)<1>); \
+  static Reg C14_CAT(reg_c_, __LINE__)("PIP_Problem::" name "/solved:decision node, both children", "PIP_Problem::" site, 0, &C14_CAT(scn_t_, __LINE__)<2>); \
+  static Reg C14_CAT(reg_d_, __LINE__)("PIP_Problem::" name "/solved:nested decisions, artificial parameters", "PIP_Problem::" site, 0, &C14_CAT(scn_t_, __LINE__)<3>); \
+  template <int SH> static void C14_CAT(scn_t_, __LINE__)(Run& r)
+
+SCN_PIPSH("PIP_Problem(copy)", "PIP_Problem(copy)") {
+  PIP_Problem x = pip_shape(SH); PIP_Problem xf(x); expect_shape(r, x, SH);
+  faulted(r, [&] { PIP_Problem z(x); if (!z.OK()) r.problem("not_ok", "copy-constructed problem"); });
+  usable(r, x, xf, "x");
+}
+SCN_PIPSH("operator=", "operator=") {
+  PIP_Problem x = pip_shape(SH); PIP_Problem xf(x); expect_shape(r, x, SH);
+  PIP_Problem y = pip_shape((SH + 2) % 4); PIP_Problem yf(y);
+  faulted(r, [&] { y = x; });
+  usable(r, y, yf, "y"); usable(r, x, xf, "x");
+}
+SCN_PIPSH("copy+swap+solve", "m_swap") {
+  PIP_Problem x = pip_shape(SH); PIP_Problem xf(x); expect_shape(r, x, SH);
+  PIP_Problem y(1); PIP_Problem yf(y);
+  faulted(r, [&] { PIP_Problem z(x); z.m_swap(y); (void) y.solve(); y.add_constraint(A <= K(50)); (void) y.solve(); });
+  usable(r, y, yf, "y"); usable(r, x, xf, "x");
+}
+SCN_PIPSH("solution()->clone()", "PIP_Tree_Node::clone") {
+  PIP_Problem x = pip_shape(SH); PIP_Problem xf(x); expect_shape(r, x, SH);
+  faulted(r, [&] { PIP_Tree t = x.solution(); if (t != 0) { PIP_Tree_Node* c = t->clone(); delete c; } });
+  usable(r, x, xf, "x");
+}
+
+// MIP problems with cached solutions: 0 LP optimized, 1 MIP optimized (branch and bound), 2 unfeasible, 3 unbounded
+static MIP_Problem mip_solved(int kind) {
+  MIP_Problem m(2);
+  m.add_constraint(A >= 0); m.add_constraint(B >= 0);
+  if (kind == 2) { m.add_constraint(A + B <= K(1)); m.add_constraint(A >= K(2)); }
+  else if (kind == 3) m.add_constraint(A - B <= K(1));
+  else { m.add_constraint(K(2) * A + B <= K(9)); m.add_constraint(K(2) * A + K(6) * B <= K(15)); }
+  m.set_objective_function(A + B);
+  if (kind == 1) { Variables_Set iv; iv.insert(A); iv.insert(B); m.add_to_integer_space_dimensions(iv); }
+  (void) m.solve();
+  return m;
+}
+#define SCN_MIPSOL(name, site) \
+  template <int KD> static void C14_CAT(scn_t_, __LINE__)(Run& r); \
+  static Reg C14_CAT(reg_a_, __LINE__)("MIP_Problem::" name "/solved:lp optimized", "MIP_Problem::" site, 0, &C14_CAT(scn_t_, __LINE__)<0>); \
+  static Reg C14_CAT(reg_b_, __LINE__)("MIP_Problem::" name "/solved:mip optimized", "MIP_Problem::" site, 0, &C14_CAT(scn_t_, __LINE__)<1>); \
+  static Reg C14_CAT(reg_c_, __LINE__)("MIP_Problem::" name "/solved:unfeasible", "MIP_Problem::" site, 0, &C14_CAT(scn_t_, __LINE__)<2>); \
+  static Reg C14_CAT(reg_d_, __LINE__)("MIP_Problem::" name "/solved:unbounded", "MIP_Problem::" site, 0, &C14_CAT(scn_t_, __LINE__)<3>); \
+  template <int KD> static void C14_CAT(scn_t_, __LINE__)(Run& r)
+SCN_MIPSOL("MIP_Problem(copy)", "MIP_Problem(copy)") {
+  MIP_Problem x = mip_solved(KD); MIP_Problem xf(x);
+  faulted(r, [&] { MIP_Problem z(x); if (!z.OK()) r.problem("not_ok", "copy-constructed problem"); if (KD <= 1) (void) z.optimizing_point(); });
+  usable(r, x, xf, "x");
+}
+SCN_MIPSOL("operator=", "operator=") {
+  MIP_Problem x = mip_solved(KD); MIP_Problem xf(x);
+  MIP_Problem y = mip_solved((KD + 1) % 4); MIP_Problem yf(y);
+  faulted(r, [&] { y = x; });
+  usable(r, y, yf, "y"); usable(r, x, xf, "x");
+}
+SCN_MIPSOL("copy+swap+extend+solve", "m_swap") {
+  MIP_Problem x = mip_solved(KD); MIP_Problem xf(x);
+  MIP_Problem y(1); MIP_Problem yf(y);
+  faulted(r, [&] { MIP_Problem z(x); z.m_swap(y); y.add_constraint(A <= K(3)); (void) y.solve(); });
+  usable(r, y, yf, "y"); usable(r, x, xf, "x");
+}
+
 } // namespace c14
